@@ -22,6 +22,12 @@ change, and a source change cannot be hidden by run-time mutation):
     through any alias (local name, import-as, parameter default, attribute, argument of a modifying function); every
     site found is listed in the table (`mutation_sites`, Lean `mutationSites`) together with the outcome of executing
     it in a fresh interpreter (tables read before and after).
+  * the enumerations AS A USER REACHES THEM (tools/c03_py_access.py): in two further fresh interpreters (enumerations
+    asked in forward and in reverse order) every enumeration is asked for every name and number any enumeration defines
+    through every access path (`E.NAME`, `E['NAME']`, `E('NAME')`, `E.from_string`, lower/mixed-case spellings, `E(number)`,
+    `E[number]`, iteration, `__members__`, ...); what comes back is the table `access` (Lean `accessViews`: per order and
+    path the name -> number table of every declared enumeration; `accessExtraNames`: names / numbers that resolved in an
+    enumeration that does not define them).
 A construct the reader does not understand is a TranslateError (exit 2, message on stdout).  A difference between the
 source view and the run-time view is recorded in the table under `source_vs_runtime` (the table carries the run-time
 values, which are what the package does); the check reports every such entry.
@@ -36,6 +42,7 @@ import sys
 sys.path.insert(0, os.path.dirname(os.path.abspath(__file__)))
 from c03_common import TranslateError, code, lean_nat, lean_int, lean_ident, write_if_changed, sha256_files  # noqa: E402
 import c03_py_alias as pa  # noqa: E402
+import c03_py_access as pacc  # noqa: E402
 
 PKG = 'fusion_engine_client.messages'
 # source-vs-run-time differences found by the cross-check (reported, the run-time value is what the table carries)
@@ -354,7 +361,14 @@ def extract(repo):
     for s in scan['sites']:
         code(s['object'])
         code(s['file'])
+    access = []
+    for spec in pacc.FIXED_SPECS:
+        try:
+            access.append(pacc.run_sweep(repo, spec))
+        except RuntimeError as e:
+            raise TranslateError('access sweep', str(e))
     table = {
+        'access': access,
         'mutation_sites': scan['sites'],
         'package_files_scanned': scan['files'],
         'package_sources': package_source_hashes(repo),
@@ -372,7 +386,36 @@ def extract(repo):
             code(m)
     for c in table['payload'] + table['registry']:
         code(c['name'])
+    declared = [e['name'] for e in table['enums'] if e['kind'] == 'declared']
+    for run in access:
+        code(run['label'])
+        for pth in run['paths']:
+            code(pth['path'])
+            for en in declared:
+                if en not in run['views'].get(pth['path'], {}):
+                    raise TranslateError('access sweep %s' % run['label'], 'no view of %s through %s' % (en, pth['path']))
+                for m, _ in run['views'][pth['path']][en]:
+                    code(m)
+        for x in run['extras']:
+            code(x['enum'])
+            code(x['name'])
     return table
+
+
+def access_views(t):
+    """[(order label, path, by_value, [(enum name, members)])] over the declared enumerations, in table order."""
+    declared = [e['name'] for e in t['enums'] if e['kind'] == 'declared']
+    res = []
+    for run in t.get('access', []):
+        for pth in run['paths']:
+            res.append((run['label'], pth['path'], bool(pth['by_value']),
+                        [(en, [tuple(x) for x in run['views'][pth['path']][en]]) for en in declared]))
+    return res
+
+
+def access_extras(t):
+    """[(order label, path, enum, name, number)]: first entries of every sweep (the sweep keeps the first 400)."""
+    return [(run['label'], x['path'], x['enum'], x['name'], x['value']) for run in t.get('access', []) for x in run['extras'][:100]]
 
 
 # ---- Lean emission ------------------------------------------------------------------------------------
@@ -428,6 +471,45 @@ def to_lean(t):
     for k, s in enumerate(ms):
         L.append('  (%s, %s, %d)%s -- %s:%d %s' % (lean_nat(s['object']), lean_nat(s['file']), s['line'],
                                                    ',' if k + 1 < len(ms) else '', s['file'], s['line'], s['statement'][:100]))
+    L.append(']')
+    L.append('')
+    # --- the enumerations as reached through every access path (tools/c03_py_access.py) ---
+    base = dict((e['name'], [tuple(m) for m in e['members']]) for e in decl)
+    views = access_views(t)
+    L.append('/-! ### every access path from a name to a number, observed in fresh interpreters after the other enumerations')
+    L.append('have been asked (tools/c03_py_access.py).  A view that is, entry by entry, the table `enum_X` above refers to it. -/')
+    L.append('')
+    for label, path, by_value, tabs in views:
+        for en, members in tabs:
+            if members != base[en]:
+                L.append('/-- `%s` through `%s`, order `%s`: differs from `enum_%s` -/' % (en, path, label, lean_ident(en)))
+                L.append('def viewOf_%s_%s_%s : List (Nat × Int) := [' % (lean_ident(label), path, lean_ident(en)))
+                for k, (m, v) in enumerate(members):
+                    L.append('  (%s, %s)%s -- %s' % (lean_nat(m), lean_int(v), ',' if k + 1 < len(members) else '', m))
+                L.append(']')
+                L.append('')
+        L.append('def view_%s_%s : List (Nat × List (Nat × Int)) := [' % (lean_ident(label), path))
+        for k, (en, members) in enumerate(tabs):
+            ref = 'enum_%s' % lean_ident(en) if members == base[en] else 'viewOf_%s_%s_%s' % (lean_ident(label), path, lean_ident(en))
+            L.append('  (%s, %s)%s -- %s' % (lean_nat(en), ref, ',' if k + 1 < len(tabs) else '', en))
+        L.append(']')
+        L.append('')
+    L.append('/-- (order in which the enumerations were asked, access path, is the path keyed by number (entries filed under the name')
+    L.append('of the member returned)?, per declared enumeration the table name -> number seen through that path) -/')
+    L.append('def accessViews : List (Nat × Nat × Bool × List (Nat × List (Nat × Int))) := [')
+    for k, (label, path, by_value, tabs) in enumerate(views):
+        L.append('  (%s, %s, %s, view_%s_%s)%s -- %s %s' % (lean_nat(label), lean_nat(path), 'true' if by_value else 'false',
+                                                         lean_ident(label), path, ',' if k + 1 < len(views) else '', label, path))
+    L.append(']')
+    L.append('')
+    ex = access_extras(t)
+    L.append('/-- (order, path, enumeration asked, name, number): a name (or the name of the member returned for a number) that')
+    L.append('resolved in an enumeration that does not define it; at most the first 100 of each order (%s in total) -/'
+             % ' + '.join(str(run['extras_total']) for run in t.get('access', [])))
+    L.append('def accessExtraNames : List (Nat × Nat × Nat × Nat × Int) := [')
+    for k, (label, path, en, m, v) in enumerate(ex):
+        L.append('  (%s, %s, %s, %s, %s)%s -- %s %s %s %s' % (lean_nat(label), lean_nat(path), lean_nat(en), lean_nat(m), lean_int(v),
+                                                          ',' if k + 1 < len(ex) else '', label, path, en, m))
     L.append(']')
     L += ['', 'end FeVerif.C03.Py', '']
     return '\n'.join(L)
